@@ -134,6 +134,17 @@ def run(ctx):
             ok = 'crash' not in o and o.get('verify') and o['verify'][0].get('reference') == [tam is None] and (o['verify'][0]['result'] == 'ok') == (tam is None)
             ctx.expect(ok, 'C19:reference-verifier', 'n%d m%d x%d %s: library verdict %s, independent paper-form verifier says %s' % (
                 n, m, x, 'honest' if tam is None else 'altered', (o.get('verify') or [{}])[0].get('result'), (o.get('verify') or [{}])[0].get('reference')), cfg, 'relation_disagrees')
+    # proofs made by the independent straight-from-the-paper prover (refimpl.rs::reference_prove) must be accepted by the library and their masks recovered
+    n_refp = 0
+    for (n, m, cap, x, seeded) in ([(8, 1, 1, 1, True), (4, 4, 8, 2, False), (64, 1, 2, 3, True), (2, 2, 2, 6, False)] if ctx.quick() else
+                                   [(8, 1, 1, 1, True), (4, 4, 8, 2, False), (64, 1, 2, 3, True), (2, 2, 2, 6, False), (1, 2, 2, 1, False), (16, 8, 8, 1, False), (32, 1, 1, 5, True), (64, 4, 4, 2, False)]):
+        cfg = {'scenario': 'batch', 'n': n, 'x': x, 'members': [{'m': m, 'cap': cap, 'seeded': seeded, 'promises': ['1'] + [None] * (m - 1)}], 'reference_prover': True}
+        o = run_replay(cfg, ctx.seed)
+        n_refp += 1
+        rp = (o.get('reference_prover') or [{}])[0] if 'crash' not in o else {}
+        ok = rp.get('reference_prove') == 'ok' and rp.get('library_verify') == 'ok' and rp.get('masks') == [rp.get('expected_mask')] and rp.get('len') == 1 + 32 * (5 + x + 2 * ((n * m).bit_length() - 1))
+        ctx.expect(ok, 'C19:reference-prover', 'n%d m%d x%d: a proof made by the independent paper-form prover is not accepted / its mask not recovered by the library: %s' % (n, m, x, str(rp)[:200]),
+                   cfg, 'reference_prover_rejected')
     for (n, cap, x) in [(8, 4, 6), (64, 2, 1)]:
         fg = Finding('C19', 'C19:generators', 'generators differ from the documented derivation', {'scenario': 'gens', 'n': n, 'cap': cap, 'x': x}, 'generators_mismatch', {})
         bad, det = replaypreds.generators_mismatch(fg)
@@ -143,11 +154,11 @@ def run(ctx):
             ctx.findings.append(fg)
         else:
             ctx.struct_ok += 1
-    ctx.extra['concrete_part'] = {'recorded_vectors': 16, 'reference_verifier_runs': n_ref, 'reference_generator_sets': 2, 'seconds': round(time.time() - t0, 1),
+    ctx.extra['concrete_part'] = {'recorded_vectors': 16, 'reference_verifier_runs': n_ref, 'reference_prover_runs': n_refp, 'reference_generator_sets': 2, 'seconds': round(time.time() - t0, 1),
                                   'note': 'these are concrete executions on the real crates (not solver-decided): recorded proofs/masks of the pinned tree, verdict agreement with the independent unoptimised verifier '
                                           '(symx/src/refimpl.rs), generator bytes against an independent SHAKE256/SHA3-512 derivation'}
     bounds = {'layout (Engine S)': 'lattice without n*m=1; all absorbed contents symbolic', 'concrete': 'as listed under concrete_part'}
     return finish(ctx, [A_ALL['A3'], A_ALL['A5'], 'the frozen layout in this file (expected_log, nonce key layout) was written from the 0.4.0 source and is validated by the recorded vectors on the unchanged tree'],
                   FUNCS, bounds, ['byte-for-byte agreement of the hash primitives and curve arithmetic with an independent implementation is concrete cryptography: covered only through the recorded vectors and the reference verifier runs',
-                                   'an independent straight-from-the-paper PROVER is not implemented; the reference side is a verifier and a generator derivation'],
+                                   'the reference implementation (verifier, prover, generator derivation) shares the hash and curve crates with the library: it is independent in the protocol logic, not in the primitives'],
                   'layout: structural equality of the recorded absorb log / Blake2b key records with the frozen layout, one comparison per configuration, contents symbolic; concrete part: enumeration of recorded vectors')
